@@ -83,3 +83,12 @@ Definition reviewed_cached_call : list string :=
    "return result"].
 Theorem cache_is_the_modelled_one : cached_call_impl = reviewed_cached_call.
 Proof. vm_compute. reflexivity. Qed.
+
+(* Clones.  replace() / extend() copy the retort object, change the copy, and then _calculate_derived() runs on the copy:
+   every cache (loader cache, dumper cache, call cache) is a NEW empty dict, the routers are rebuilt from the copy's recipe.
+   The original is never written to.  So a clone starts in Cache.init, and C11_history_independent applies to it whatever
+   the original has been asked before. *)
+Definition reviewed_clone_code : list (string * list string) :=
+  [("Cloneable._clone", ["self_copy = copy(self)"; "try: yield self_copy finally: self_copy._calculate_derived()"]); ("AdornedRetort._calculate_derived", ["super()._calculate_derived()"; "self._loader_cache = {}"; "self._dumper_cache = {}"]); ("AdornedRetort.replace", ["with self._clone() as clone: if strict_coercion is not None: clone._strict_coercion = strict_coercion if debug_trail is not None: clone._debug_trail = debug_trail if hide_traceback is not None: clone._hide_traceback = hide_traceback"; "return clone"]); ("AdornedRetort.extend", ["with self._clone() as clone: clone._instance_recipe = tuple(recipe) + clone._instance_recipe"; "return clone"]); ("SearchingRetort._calculate_derived", ["super()._calculate_derived()"; "self._request_cls_to_router = self._create_request_cls_to_router(self._full_recipe)"; "self._request_cls_to_error_representor = {request_cls: self._create_error_representor(request_cls) for request_cls in self._request_cls_to_router}"; "self._call_cache: dict[Any, Any] = {}"])].
+Theorem clone_code_is_the_reviewed_one : clone_code = reviewed_clone_code.
+Proof. vm_compute. reflexivity. Qed.
